@@ -20,7 +20,7 @@ from lv.props import common
 
 ID = 'C09'
 BUDGET = {'quick': 240, 'thorough': 5000}        # generated programs (x 8 engines)
-WALL = {'quick': 600, 'thorough': 3600}
+WALL = {'quick': 900, 'thorough': 3600}
 ENGINES = list(sqlscope.ENGINES)
 RULE = ('programs from the typed core-fragment generator (facts, joins, multi-rule and '
         '| predicates, named/positional arguments, arithmetic, ++, comparisons, boolean '
@@ -138,14 +138,25 @@ def classify_exc(e, hdr):
                             'diagnostic:\n%s\n%s' % (tb, hdr))], []
 
 
-def analyse(pr, engine, hdr):
+def external_tables(text):
+    """Predicates a program mentions but does not define: the compiler takes them for
+    tables that exist in the database (only minimised / hand-written cases have any)."""
+    try:
+        defined = {r['head']['predicate_name'] for r in drive.parse_rules(text)}
+    except Exception:
+        return ()
+    bare = re.sub(r'"[^"\n]*"', '', text)
+    return sorted(set(re.findall(r'\b[A-Z][A-Za-z0-9_]*\b', bare)) - defined)
+
+
+def analyse(pr, engine, hdr, externals=()):
     """Scoper (+ SQLite calibration) on the SQL left in pr.execution."""
     res = {'outcome': 'sql', 'failures': [], 'labels': [], 'stats': None}
     tot = dict(from_aliases=0, subqueries=0, with_tables=0, selects=0, alias_refs=0)
     ok = True
     main_sc = None
     for name, part in sql_parts(pr):
-        sc = sqlscope.check(part, engine)
+        sc = sqlscope.check(part, engine, externals)
         for k in tot:
             tot[k] += sc.stats.get(k, 0)
         if name == 'main':
@@ -170,6 +181,8 @@ def analyse(pr, engine, hdr):
         elif err is None:
             res['labels'].append('calib:scoper_ok_sqlite_ok' if ok
                                  else 'calib:scoper_rejects_sqlite_ok')
+        elif any(('no such table: %s' % x) in err for x in externals):
+            res['labels'].append('calib:external_table_absent')
         elif any(m in err for m in STRUCTURAL_SQLITE):
             if ok:
                 res['failures'].append((
@@ -204,7 +217,7 @@ def check_one(prog, pred, engine, text=None):
     except Exception as e:
         o, f, l = classify_exc(e, hdr)
         return {'outcome': o, 'failures': f, 'labels': l, 'stats': None}
-    return analyse(pr, engine, hdr)
+    return analyse(pr, engine, hdr, external_tables(text))
 
 
 class Shared(object):
@@ -339,3 +352,17 @@ def minimise(case, bucket):
     if 'prog' not in case:
         return case
     return common.minimise_program(case, bucket, check_case)
+
+
+def evidence_extra(col):
+    """Per-engine split of compilation outcomes and the SQLite calibration table."""
+    per = {}
+    calib = {}
+    for l, n in col.labels.items():
+        if l.startswith('outcome:'):
+            _, eng, what = l.split(':', 2)
+            per.setdefault(eng, {'sql': 0, 'diagnostic': 0, 'violation': 0,
+                                 'internal': 0})[what] = n
+        elif l.startswith('calib:'):
+            calib[l[6:]] = n
+    return {'per_engine_outcomes': per, 'sqlite_calibration': calib}
